@@ -94,7 +94,7 @@ def main():
     dst = V / 'seeded' / name
     dst.mkdir(parents=True, exist_ok=True)
     for fn in ('patch.diff', 'demo.py', 'notes.txt'):
-        if (src / fn).exists():
+        if (src / fn).exists() and (src / fn).resolve() != (dst / fn).resolve():
             shutil.copy(src / fn, dst / fn)
     if (src / 'notes.txt').exists():
         meta['needs'] = (src / 'notes.txt').read_text()[:1500]
